@@ -39,7 +39,11 @@ try:
     rel = os.path.relpath(demo_abs, mr)
     run_m = re.search(r"-run[ =]+(\S+)", demo_cmd)
     runpat = run_m.group(1).strip("'\"") if run_m else "Seed"
-    dcmd = f"go test -vet=off -count=1 -run '{runpat}' ./{rel}"
+    fm = re.search(r"-ginkgo\.focus[ =]+('[^']*'|\"[^\"]*\"|\S+)", demo_cmd)
+    focus = (" -ginkgo.focus " + fm.group(1)) if fm else ""
+    racef = " -race" if re.search(r"(^|\s)-race(\s|$)", demo_cmd) else ""
+    if racef: env["CGO_ENABLED"] = "1"
+    dcmd = f"go test{racef} -vet=off -count=1 -run '{runpat}' ./{rel}{focus}"
     rc0, out0 = sh(dcmd, cwd=mr)
     res["demo_cmd"] = dcmd
     res["demo_clean_pass"] = (rc0 == 0)
